@@ -378,6 +378,11 @@ def steer(pkg, rng, with_dates):
     pkg.files[fn].append(M.Record("SteerGen", ("T", "U"), [("id", M.Prim("int32")), ("payload", M.TParam("T")), ("extra", M.Vec(M.TParam("U")))]))
     first.steps.append(("steergen", M.Named("SteerGen", (M.Opt(M.Prim("int32")), M.Opt(M.Prim("string")))), True))
     first.steps.append(("steergenu", M.Named("SteerGen", (M.Union((("int32", M.Prim("int32")), ("string", M.Prim("string"))), nullable=True), M.Prim("float64"))), True))
+    # a union over a type parameter inside a generic record: whether its values are tagged depends on the type argument
+    # (`[T, int32]` is written bare for T = string and needs tags for T = float64)
+    pkg.files[fn].append(M.Record("SteerTagged", ("T",), [("value", M.Union((("T", M.TParam("T")), ("int32", M.Prim("int32"))))), ("label", M.Prim("string"))]))
+    first.steps.append(("steertagnum", M.Named("SteerTagged", (M.Prim("float64"),)), True))
+    first.steps.append(("steertagstr", M.Named("SteerTagged", (M.Prim("string"),)), rng.chance(0.5)))
     # unions whose cases share a JSON *container* kind: arrays (vectors, maps whose keys are not strings, complex numbers)
     # and objects (records, maps with string keys)
     kt = M.Prim(rng.choice(["int16", "uint8", "int64"] + (["date", "datetime"] if with_dates else [])))
